@@ -6,7 +6,20 @@ resolved, otherwise `oracle(expr, ctx)` may return the integer value the discrim
 case being explored, or None to fork over every target.  Facts assumed for one expression are remembered along
 the path, so the same atom never takes two values on one path.
 """
-from sym import PathSym, fmt
+from sym import PathSym, fmt, map_children
+
+
+def _key(e):
+    """expression identity for branch consistency: equal calls with equal arguments (receiver mutations show up as
+    ('after', ...) in the arguments) are assumed to return equal values, whatever their call site"""
+    if not isinstance(e, tuple):
+        return e
+    if e[0] == 'call':
+        c = e[1]
+        if isinstance(c, tuple):
+            c = (c[0], _key(c[1]))
+        return ('call', c, tuple(_key(a) for a in e[2]), None)
+    return map_children(e, _key)
 
 STD_VARIANTS = {
     'std::option::Option': ['None', 'Some'],
@@ -108,8 +121,9 @@ def explore(fn, oracle=None, max_visits=2, limit=5000, start=0, stop_blocks=(), 
             e = ps.operand_at(t['discr'], (len(blocks) - 1, 'T'))
             val = const_discr(fn, e)
             how = 'const'
-            if val is None and e in assumed:
-                a = assumed[e]
+            ek = _key(e)
+            if val is None and ek in assumed:
+                a = assumed[ek]
                 if not (isinstance(a, tuple) and a and a[0] == 'not'):
                     val = a
                     how = 'assumed'
@@ -125,18 +139,18 @@ def explore(fn, oracle=None, max_visits=2, limit=5000, start=0, stop_blocks=(), 
                 if tgt is None:
                     tgt = t['otherwise']
                 na = dict(assumed)
-                na[e] = val
+                na[ek] = val
                 nxt = [(tgt, na, decisions + [(len(blocks) - 1, bid, e, val, how)])]
             else:
                 nxt = []
                 excluded = ()
-                if e in assumed and isinstance(assumed[e], tuple) and assumed[e][0] == 'not':
-                    excluded = assumed[e][1]
+                if ek in assumed and isinstance(assumed[ek], tuple) and assumed[ek][0] == 'not':
+                    excluded = assumed[ek][1]
                 for v, b in targets:
                     if v in excluded:
                         continue
                     na = dict(assumed)
-                    na[e] = v
+                    na[ek] = v
                     nxt.append((b, na, decisions + [(len(blocks) - 1, bid, e, v, 'fork')]))
                 ob = t['otherwise']
                 ot = fn.blocks[ob]['term']
@@ -149,7 +163,7 @@ def explore(fn, oracle=None, max_visits=2, limit=5000, start=0, stop_blocks=(), 
                         oval = 1 - targets[0][0]      # the other truth value
                     else:
                         oval = ('not', tuple(v for v, _ in targets) + tuple(excluded))
-                    na[e] = oval
+                    na[ek] = oval
                     nxt.append((ob, na, decisions + [(len(blocks) - 1, bid, e, oval, 'fork')]))
         else:
             nxt = [(s, assumed, decisions) for s in succ]
